@@ -179,7 +179,12 @@ def use_package(types, converters):
 
 
 def main(argv):
-    from lsprotocol import converters, types
+    import importlib
+    # VERIF_PKG_NAME: the package imported under another qualified name (a vendored copy, bundled_libs.lsprotocol) while a
+    # top-level lsprotocol is importable as well
+    pkg = os.environ.get("VERIF_PKG_NAME", "lsprotocol")
+    converters = importlib.import_module(pkg + ".converters")
+    types = importlib.import_module(pkg + ".types")
     from .codec_driver import norm_table
     if os.environ.get("VERIF_IMAGE_STAGE") == "used":
         use_package(types, converters)
